@@ -103,6 +103,14 @@ def _prove(res, claim, what, extra=()):
         return True
     if r == "sat":
         from vsym.build import model_values
+        from vsym.vq import REG
+        if "K" in REG.variables and "n" in REG.variables:
+            # prefer a witness with integral K <= n (what a tree can produce) in a moderate box, for the replay
+            Kz, nz = REG.variables["K"][0], REG.variables["n"][0]
+            ints = z3.And(z3.Or([Kz == k for k in (1, 2, 3)]), z3.Or([nz == Kz + d for d in (0, 1, 2, 3)]))
+            r2, m2 = CTX.prove(claim, extra=list(extra) + [ints], use_pc=False, box=(Fraction(1, 20), 20))
+            if r2 == "sat":
+                model = m2
         res["cex"].append({"kind": what, "values": model_values(model)})
         return False
     raise Inconclusive(what + ": unknown")
@@ -140,41 +148,57 @@ def _algebra(res, rec):
     rng = object()
     s = GammaPriorConcentrationSampler(Lin(a), Lin(b), rng)
 
-    def run():
-        return CTX.explore(lambda: (s.sample(Lin(al), Lin(K), Lin(n)), list(rec.calls), rec.z, rec.eta, rec.g), before_path=lambda: rec.calls.clear())
-    paths, funcs = patcher.entered_functions(run)
     x = V.var("x")
-    zs = set()
-    for p in paths:
-        new_value, calls, z, eta, g = p.result
-        zs.add(z)
+
+    def one():
+        """run sample() and form every claim while the path's sign knowledge is valid"""
+        new_value = s.sample(Lin(al), Lin(K), Lin(n))
+        calls, z, eta, g = list(rec.calls), rec.z, rec.eta, rec.g
         kinds = [c[0] for c in calls]
-        _prove(res, kinds == ["beta", "bernoulli", "gamma"], "draw-sequence")
+        claims = [("draw-sequence", kinds == ["beta", "bernoulli", "gamma"])]
         if kinds != ["beta", "bernoulli", "gamma"]:
-            continue
+            return z, claims
         _, ba, bb, brng = calls[0]
-        _prove(res, Lin(al + 1).e.eq(ba.e) if isinstance(ba, Lin) else False, "beta-first-parameter", extra=p.pc)
-        _prove(res, bb.e.eq(n) if isinstance(bb, Lin) else False, "beta-second-parameter", extra=p.pc)
-        _prove(res, brng is rng and calls[1][2] is rng and calls[2][3] is rng, "draws-use-the-given-generator")
+        claims.append(("beta-first-parameter", (al + 1).eq(_v(ba))))
+        claims.append(("beta-second-parameter", _v(bb).eq(n)))
+        claims.append(("draws-use-the-given-generator", brng is rng and calls[1][2] is rng and calls[2][3] is rng))
         l = -eta.m                      # log(eta)
         rate = b - l
         shape0 = a + K - 1
-        pi = calls[1][1].e
+        pi = _v(calls[1][1])
         # odds of the two mixture components:  pi * n * (b - l) == (1 - pi) * (a + K - 1)
-        _prove(res, (pi * n * rate).eq((V(1) - pi) * shape0), "mixture-odds", extra=p.pc)
-        _prove(res, z3.And(_b(pi.gt(V(0))), _b(pi.lt(V(1)))), "pi-in-unit-interval", extra=p.pc)
+        claims.append(("mixture-odds", (pi * n * rate).eq((V(1) - pi) * shape0)))
+        claims.append(("pi-in-unit-interval", z3.And(_b(pi.gt(V(0))), _b(pi.lt(V(1))))))
         _, gshape, gscale, _ = calls[2]
-        _prove(res, gshape.e.eq(shape0 + z), "gamma-shape", extra=p.pc)
-        _prove(res, (gscale.e * rate).eq(V(1)), "gamma-scale", extra=p.pc)
+        claims.append(("gamma-shape", _v(gshape).eq(shape0 + z)))
+        claims.append(("gamma-scale", (_v(gscale) * rate).eq(V(1))))
         # mixture density proportional to x^(a+K-2) (x+n) exp(-x(b-l)):  pi*rate*x/shape + (1-pi) == ((1-pi)/n) (x+n)
         # (uses Gamma(s+1) = s Gamma(s); the common factor rate^s x^(s-1) e^(-rate x) / Gamma(s) is divided out)
-        _prove(res, (pi * rate * x * n + (V(1) - pi) * shape0 * n).eq((V(1) - pi) * (x + n) * shape0), "mixture-density", extra=p.pc)
+        claims.append(("mixture-density", (pi * rate * x * n + (V(1) - pi) * shape0 * n).eq((V(1) - pi) * (x + n) * shape0)))
         # returned value is the gamma draw (or the 1e-10 clamp when the draw is below it)
-        _prove(res, z3.Or(_b(new_value.e.eq(g.e)) if isinstance(new_value, Lin) else z3.BoolVal(False),
-                          z3.And(_b(g.e.le(V(1e-10))), z3.BoolVal(_is_clamp(new_value)))), "returned-value", extra=p.pc)
+        claims.append(("returned-value", z3.Or(_b(new_value.e.eq(g.e)) if isinstance(new_value, Lin) else z3.BoolVal(False),
+                                               z3.And(_b(g.e.le(V(1e-10))), z3.BoolVal(_is_clamp(new_value))))))
+        return z, claims
+
+    def run():
+        return CTX.explore(one, before_path=lambda: rec.calls.clear())
+    paths, funcs = patcher.entered_functions(run)
+    zs = set()
+    for p in paths:
+        z, claims = p.result
+        zs.add(z)
+        for what, claim in claims:
+            _prove(res, claim, what, extra=p.pc)
     _prove(res, zs == {0, 1}, "both-bernoulli-outcomes-explored")
     res["sample"] = {"case": "sample(alpha, K, n) with symbolic a, b, alpha, K, n, log(eta)", "paths": len(paths), "identities": res["obligations"]}
     return funcs
+
+
+def _v(x):
+    """V of a Lin or of a plain number (a mutated sampler may hand plain floats to the draws)"""
+    if isinstance(x, Lin):
+        return x.e
+    return V(x)
 
 
 def _is_clamp(v):
@@ -297,7 +321,10 @@ def replay(case):
             beta_call = [c for c in calls if c[0] == "beta"]
             bad = (K > 0 and (not beta_call or beta_call[0][2] != n or abs(got[0][1] - want_shape) > 1e-12)) or td.prior.alpha != 0.9
             return bad, {"calls": calls, "expected_K_n": (K, n)}
-        a, b, alpha, K, n = 0.7, 1.9, 1.3, 3, 5
+        vals = {k: float(Fraction(v)) for k, v in case.get("values", {}).items()}
+        a, b, alpha = vals.get("a", 0.7), vals.get("b", 1.9), vals.get("alpha", 1.3)
+        K = max(1, int(round(vals.get("K", 3))))
+        n = max(K, int(round(vals.get("n", 5))))
         mod.GammaPriorConcentrationSampler(a, b, None).sample(alpha, K, n)
         rate = b - math.log(0.37)
         shape = a + K - 1
